@@ -63,39 +63,6 @@ fn check_queries(ticks: &ServerMutateTicks, confirmed: &[(RepliconTick, usize, u
     }
 }
 
-// HARNESS: c12_mutate_ticks_one_confirm
-// PROPS: C12
-// TIER: quick
-// TIMEOUT: 600
-// DRIVES: ServerMutateTicks::confirm, ServerMutateTicks::contains, ServerMutateTicks::mask, ServerMutateTicks::last_tick, TickMessages::confirm
-// BOUNDS: from Default (last tick 0): one confirm(t, n) with t anywhere within 2^30 of 0 (newer, older, beyond the window) and n in 1..=3; one arbitrary contains/mask query; unwind 66 (64-entry window)
-#[kani::proof]
-#[kani::unwind(66)]
-fn c12_mutate_ticks_one_confirm() {
-    let mut ticks = ServerMutateTicks::default();
-    let t = near(ticks.last_tick());
-    let n: usize = kani::any();
-    kani::assume(n >= 1 && n <= 3);
-    let old_last = ticks.last_tick();
-    let completed = ticks.confirm(t, n);
-    // The tracker's last tick never moves backwards.
-    assert!(ticks.last_tick() >= old_last);
-    assert!(ticks.last_tick() == if t > old_last { t } else { old_last });
-    let in_window = match model_ago(ticks.last_tick(), t) {
-        Some(ago) => ago < 64,
-        None => false,
-    };
-    assert!(completed == (in_window && n == 1));
-    if in_window {
-        check_queries(&ticks, &[(t, n, 1)]);
-    } else {
-        check_queries(&ticks, &[]);
-    }
-    kani::cover!(completed && t > old_last, "newer tick completed by a single message");
-    kani::cover!(!in_window, "confirmation older than the window is ignored");
-    core::mem::forget(ticks);
-}
-
 // HARNESS: c12_mutate_ticks_two_confirms
 // PROPS: C12
 // TIER: thorough
@@ -163,4 +130,97 @@ fn c12_mutate_ticks_two_confirms() {
     kani::cover!(t1 == t2 && c2, "tick completed by its second message");
     kani::cover!(t1_tracked && !t1_still, "first tick pushed out of the window by the second");
     core::mem::forget(ticks);
+}
+
+fn confirm_from_any_state(jump: Option<i32>) {
+    let mut pre = [TickMessages::default(); 64];
+    for slot in pre.iter_mut() {
+        let expected: usize = kani::any();
+        let received: usize = kani::any();
+        // ASSUME: representation invariant per slot: fresh (0,0) or received <= expected <= 4
+        kani::assume(expected <= 4 && received <= expected);
+        *slot = TickMessages { messages_count: expected, received };
+    }
+    let last = RepliconTick::new(kani::any());
+    let mut ticks = ServerMutateTicks { ticks: VecDeque::from(pre), last_tick: last };
+    // The distance of the confirmed tick from the last tick is concrete per call (symbolic in the
+    // thorough harness): with a symbolic distance a shifting implementation based on slice rotation
+    // would be intractable (ptr::copy of symbolic length) instead of being refuted.
+    let t = match jump {
+        Some(jump) => RepliconTick::new(last.get().wrapping_add(jump as u32)),
+        None => near(last),
+    };
+    let n: usize = kani::any();
+    kani::assume(n >= 1 && n <= 4);
+    let newer = t > last;
+    let delta = if newer { (t - last) as usize } else { (last - t) as usize };
+    if !newer && delta < 64 {
+        // ASSUME: documented preconditions for a tick that is already tracked: same message count, not yet complete
+        kani::assume(pre[delta].messages_count == 0 || (pre[delta].messages_count == n && pre[delta].received < n));
+    }
+    let completed = ticks.confirm(t, n);
+    assert!(ticks.last_tick() == if newer { t } else { last });
+    assert!(ticks.ticks.len() == 64);
+    // Window model: a newer tick shifts every slot by `delta` (slots falling out are forgotten,
+    // skipped ticks are empty), an older one only touches its own slot.
+    let i: usize = kani::any();
+    kani::assume(i < 64);
+    let slot = ticks.ticks[i];
+    let expect = if newer {
+        if i == 0 {
+            TickMessages { messages_count: n, received: 1 }
+        } else if i < delta {
+            TickMessages::default()
+        } else {
+            pre[i - delta]
+        }
+    } else if i == delta {
+        TickMessages { messages_count: n, received: pre[i].received + 1 }
+    } else {
+        pre[i]
+    };
+    assert!(slot.messages_count == expect.messages_count && slot.received == expect.received);
+    let slot_of_t = if newer { 0 } else { delta };
+    if slot_of_t < 64 {
+        let after = ticks.ticks[slot_of_t];
+        assert!(completed == (after.messages_count == after.received));
+    } else {
+        assert!(!completed);
+    }
+    kani::cover!(jump.is_some() || (newer && delta > 1 && delta < 64 && i > 0 && i < delta), "a skipped tick behind a jump inside the window");
+    kani::cover!(jump.is_some() || (newer && delta >= 64), "jump beyond the window");
+    kani::cover!(jump.is_some() || (!newer && delta > 0 && completed), "late message completes an older tick");
+    kani::cover!(i == 63 && slot.messages_count == 4, "oldest slot holds a tracked tick");
+    core::mem::forget(ticks);
+}
+
+// HARNESS: c12_mutate_ticks_confirm_from_any_state
+// PROPS: C12
+// TIER: quick
+// TIMEOUT: 900
+// DRIVES: ServerMutateTicks::confirm, ServerMutateTicks::contains, ServerMutateTicks::mask, TickMessages::confirm
+// BOUNDS: ARBITRARY tracker state (64 slots with arbitrary counters under the representation invariant, arbitrary last tick); one confirm(t, n) at distance +1, +3, +63, +64, 0, -2, -63, -64 from the last tick (symbolic distance in the thorough harness); every slot compared with the shifted-window model; one inductive step covers confirmation sequences of any length; unwind 66
+#[kani::proof]
+#[kani::unwind(66)]
+fn c12_mutate_ticks_confirm_from_any_state() {
+    confirm_from_any_state(Some(1));
+    confirm_from_any_state(Some(3));
+    confirm_from_any_state(Some(63));
+    confirm_from_any_state(Some(64));
+    confirm_from_any_state(Some(0));
+    confirm_from_any_state(Some(-2));
+    confirm_from_any_state(Some(-63));
+    confirm_from_any_state(Some(-64));
+}
+
+// HARNESS: c12_mutate_ticks_confirm_any_distance
+// PROPS: C12
+// TIER: thorough
+// TIMEOUT: 1800
+// DRIVES: ServerMutateTicks::confirm, TickMessages::confirm
+// BOUNDS: as c12_mutate_ticks_confirm_from_any_state but with a SYMBOLIC distance anywhere within 2^30 of the last tick; unwind 66
+#[kani::proof]
+#[kani::unwind(66)]
+fn c12_mutate_ticks_confirm_any_distance() {
+    confirm_from_any_state(None);
 }
